@@ -207,11 +207,18 @@ type fwBurst struct {
 }
 
 type fwCase struct {
-	Fence   *fenceSpec  `json:"fence,omitempty"`
-	Pattern bool        `json:"pattern,omitempty"` // second follower subscriber uses PSUBSCRIBE
-	NSubs   int         `json:"nsubs"`
-	Pubs    [][]int     `json:"pubs"`    // per publisher: sizes of pipelined PUBLISH batches
-	Writers [][]fwBurst `json:"writers"` // per writer connection
+	Fence   *fenceSpec `json:"fence,omitempty"`
+	Pattern bool       `json:"pattern,omitempty"` // second follower subscriber uses PSUBSCRIBE
+	// LeaderSub: who is subscribed on the LEADER meanwhile — "none" (nobody at
+	// all), "other" (one connection on an unrelated channel), "same" (one on
+	// the same channels; it is checked like the follower's subscribers),
+	// "churn" (one connection that keeps subscribing to and unsubscribing from
+	// the channel, or an unrelated one, while the traffic runs)
+	LeaderSub string      `json:"leader_sub"`
+	ChurnSame bool        `json:"churn_same,omitempty"`
+	NSubs     int         `json:"nsubs"`
+	Pubs      [][]int     `json:"pubs"`    // per publisher: sizes of pipelined PUBLISH batches
+	Writers   [][]fwBurst `json:"writers"` // per writer connection
 	// Phased: writers run first, the follower catches up, then the publishers
 	// run — log data and forwarded PUBLISH frames never share the link at the
 	// same time (the shape generated while findingForwardTear is excluded)
@@ -226,6 +233,8 @@ func drawFWCase(rt *rapid.T, gentle bool) fwCase {
 		p.Fence = &f
 	}
 	p.NSubs = rapid.IntRange(1, 2).Draw(rt, "nsubs")
+	p.LeaderSub = rapid.SampledFrom([]string{"none", "none", "other", "same", "same", "churn"}).Draw(rt, "leadersub")
+	p.ChurnSame = rapid.Bool().Draw(rt, "churnsame")
 	p.Pattern = rapid.Bool().Draw(rt, "pattern")
 	npub := rapid.IntRange(1, 2).Draw(rt, "npub")
 	for i := 0; i < npub; i++ {
@@ -332,14 +341,15 @@ func (e *fwEnv) waitCaughtUp(budget time.Duration) bool {
 }
 
 type fwSub struct {
-	conn *t38.Conn
-	sub  string // "c:name" or "p:pattern"
-	ack  int64
-	mu   sync.Mutex
-	got  []string // payloads in order
-	end  bool
-	err  string
-	done chan struct{}
+	leader bool // sits on the leader (reference), not on the follower
+	conn   *t38.Conn
+	sub    string // "c:name" or "p:pattern"
+	ack    int64
+	mu     sync.Mutex
+	got    []string // payloads in order
+	end    bool
+	err    string
+	done   chan struct{}
 }
 
 func (s *fwSub) run(endPayload string) {
@@ -415,11 +425,15 @@ func runFollowerCase(e *fwEnv, p fwCase) *outcome {
 			panic(err)
 		}
 	}
-	// subscribers: index 0 sits on the leader (reference), the others on the follower
+	// subscribers on the follower, all acknowledged before any traffic; what
+	// is subscribed on the leader meanwhile is a dimension of the case
 	var subs []*fwSub
 	for i := 0; i <= p.NSubs; i++ {
-		s := &fwSub{done: make(chan struct{})}
+		s := &fwSub{done: make(chan struct{}), leader: i == 0}
 		if i == 0 {
+			if p.LeaderSub != "same" {
+				continue
+			}
 			s.conn = dial(e.leader)
 		} else {
 			s.conn = dial(e.follower)
@@ -441,6 +455,55 @@ func runFollowerCase(e *fwEnv, p fwCase) *outcome {
 		}
 		s.ack = now()
 		subs = append(subs, s)
+	}
+	o.label("leader-subscribers:" + p.LeaderSub)
+	other := fmt.Sprintf("fwother%d", n)
+	stopChurn := make(chan struct{})
+	churnDone := make(chan struct{})
+	switch p.LeaderSub {
+	case "other":
+		c := dial(e.leader)
+		if v, err := c.Do("SUBSCRIBE", other); err != nil || v.Kind != '*' {
+			panic(fmt.Sprintf("subscribe other: %v %v", v, err))
+		}
+		close(churnDone)
+	case "churn":
+		c := dial(e.leader)
+		name := other
+		if p.ChurnSame {
+			name = ch
+		}
+		go func() {
+			defer close(churnDone)
+			await := func(tag string) bool {
+				for {
+					v, err := c.RecvTimeout(t38.ReplyTimeout)
+					if err != nil {
+						return false
+					}
+					if v.Kind == '*' && len(v.Arr) == 3 && v.Arr[0].Str == tag {
+						return true
+					}
+				}
+			}
+			for k := 0; ; k++ {
+				select {
+				case <-stopChurn:
+					return
+				default:
+				}
+				if c.Send("SUBSCRIBE", name) != nil || !await("subscribe") {
+					return
+				}
+				time.Sleep(time.Duration(50+37*k%400) * time.Microsecond)
+				if c.Send("UNSUBSCRIBE", name) != nil || !await("unsubscribe") {
+					return
+				}
+				time.Sleep(time.Duration(20+53*k%300) * time.Microsecond)
+			}
+		}()
+	default:
+		close(churnDone)
 	}
 	endPayload := fmt.Sprintf("END|%d", n)
 	for _, s := range subs {
@@ -539,6 +602,11 @@ func runFollowerCase(e *fwEnv, p fwCase) *outcome {
 		return o
 	default:
 	}
+	close(stopChurn)
+	select {
+	case <-churnDone:
+	case <-time.After(t38.ReplyTimeout):
+	}
 	if v, err := e.lctl.Do("PUBLISH", ch, endPayload); err != nil || v.Kind != ':' {
 		o.fail("command-failed", "PUBLISH sentinel: %v %v", v, err)
 		return o
@@ -594,7 +662,7 @@ func runFollowerCase(e *fwEnv, p fwCase) *outcome {
 		got, end, serr := s.got, s.end, s.err
 		s.mu.Unlock()
 		where := "follower"
-		if i == 0 {
+		if s.leader {
 			where = "leader"
 		}
 		next := make([]int, len(sent))
@@ -622,7 +690,7 @@ func runFollowerCase(e *fwEnv, p fwCase) *outcome {
 				return o
 			default:
 				key := "follower-subscriber-lost"
-				if i == 0 {
+				if s.leader {
 					key = "lost"
 				}
 				o.fail(key, "%s subscriber %d (%s), subscribed and acknowledged before any PUBLISH was sent, never received messages #%d..#%d of publisher %d (got #%d next); replication connections so far: %d",
@@ -633,7 +701,7 @@ func runFollowerCase(e *fwEnv, p fwCase) *outcome {
 		for pi := range sent {
 			if next[pi] != len(sent[pi]) || !end {
 				key := "follower-subscriber-lost"
-				if i == 0 {
+				if s.leader {
 					key = "lost"
 				}
 				if !complete && mon.MaxSince(t0) > time.Second {
@@ -645,7 +713,7 @@ func runFollowerCase(e *fwEnv, p fwCase) *outcome {
 				return o
 			}
 		}
-		if i > 0 {
+		if !s.leader {
 			o.count("forwarded-messages-checked", total)
 			o.count("forwarded-fence-notifications", fenceN)
 		}
